@@ -6,6 +6,7 @@
 #![allow(dead_code)]
 mod util;
 mod c20_cache;
+mod c15_bbox;
 
 use std::path::PathBuf;
 
@@ -39,6 +40,7 @@ fn main() {
 	std::panic::set_hook(Box::new(|_| {}));
 	let res = match cmd.as_str() {
 		"c20" => c20_cache::run(&ctx),
+		"c15" => c15_bbox::run(&ctx),
 		x => { eprintln!("unknown command {x}"); std::process::exit(2); }
 	};
 	if let Err(e) = res {
